@@ -11,13 +11,14 @@
    (via [C10_fold_unsugar]) -- together with the table obligations that tie the two sides: same
    vocabulary ([C03_vocab_same]), same constructor per keyword in fold, enum parser and enum formatter
    ([C03_fold_*_arm_matches_parser], [C03_fold_arm_keys_are_parser_keys], used inside (3)).
-   NOT proved here: (1), (2) (no lexical-parser model exists yet), and the sentence level of (3)
-   (stamp / punctuation strings go through the enum parser's side doors: that round trip is part of C01).
+   (3) is proved for whole values too ([C03_fold_lex_of_narsese]: numbers through the abstract Display /
+   FromStr round trip, stamp and punctuation texts through the enum parser's side doors).
+   NOT proved here: (1), (2) (no lexical-parser model exists yet).
    Until then the agreement of the two real pipelines on generated texts is decided by the harness
    (stream `parsed` of nvh C03), which is differential testing, not proof. *)
 From Nv Require Import Base.Str Base.Dec Model.Term Model.EqHash Model.Access Model.Sentence.
 From Nv Require Import Model.EnumFormat Model.EnumFormatter Model.EnumParser Model.Fold Gen.LexVocab.
-From Nv Require Import Proofs.FoldP Proofs.FoldP2.
+From Nv Require Import Base.FloatDec Base.FloatDec2 Proofs.FoldP Proofs.FoldP2 Proofs.FoldP3 Proofs.FloatDec2P.
 
 (* ---- the lexical and the enum format instance of the same name describe the same vocabulary ---- *)
 (* every keyword class of the lexical instance (atom prefixes, connecters, copulas, set bracket pairs,
@@ -95,6 +96,59 @@ Example ex_fold_sugared :
   fold_kw_distinct FORMAT_ASCII = true /\ set_ok t = true /\ lex_wf t = true /\
   unsugar FORMAT_ASCII x = lex_of_term FORMAT_ASCII t /\ fold_term FORMAT_ASCII x = FOk t.
 Proof. exact ex_fold_sugared. Qed.
+
+(* ---- (3) for whole values: sentences and tasks ---- *)
+(* [lex_of_narsese]: the lexical value of the formatter's output (term tree, punctuation keyword, stamp text,
+   the numbers as printed).  Numbers: the float type is abstract; the one fact used is the Display/FromStr
+   round trip on numbers that pass the range test.  Stamp and punctuation texts are read back by the enum
+   parser's side doors under the boolean format conditions [door_fmt_ok] (true of the shipped formats). *)
+Theorem C03_door_fmt_ok_shipped : forallb door_fmt_ok shipped_formats = true.
+Proof. exact door_fmt_ok_shipped. Qed.
+Print Assumptions C03_door_fmt_ok_shipped.
+
+Theorem C03_door_stamp_reads_back : forall (F : Type) (E : efmt) (st : stamp),
+  In E shipped_formats -> stamp_in_range st = true -> exists s', door_stamp F E (fmt_stamp E st) = POk st s'.
+Proof. exact door_stamp_fmt_shipped. Qed.
+Print Assumptions C03_door_stamp_reads_back.
+
+Theorem C03_door_punctuation_reads_back : forall (F : Type) (E : efmt) (p : punct),
+  In E shipped_formats -> exists s', door_punctuation F E (fmt_punct E p) = POk p s'.
+Proof. exact door_punctuation_fmt_shipped. Qed.
+Print Assumptions C03_door_punctuation_reads_back.
+
+Theorem C03_fold_lex_of_narsese :
+  forall (F : Type) (fshow : F -> str) (fread : str -> option F) (in01 : F -> bool) (E : efmt),
+    fold_kw_distinct E = true -> door_fmt_ok E = true ->
+    (forall x, in01 x = true -> fread (fshow x) = Some x) ->
+    forall v : narsese F, narsese_wf F in01 v = true ->
+      fold_narsese F fread in01 E (lex_of_narsese F fshow E v) = FOk v.
+Proof. exact fold_lex_of_narsese_fmt. Qed.
+Print Assumptions C03_fold_lex_of_narsese.
+
+Example ex_fold_lex_of_narsese :
+  let fshow := fun c : N => [c] in
+  let fread := fun s : str => match s with [c] => Some c | _ => None end in
+  let in01 := fun _ : N => true in
+  let v : narsese N := NTask (SJudgement (TBox2 Inheritance (TName Word [65]%N) (TSet SetIntension [TName Word [66]%N]))
+                                         (TruthDouble 49 48)%N (Fixed (-1)%Z), BudgetSingle 48%N) in
+  fold_kw_distinct FORMAT_ASCII = true /\ door_fmt_ok FORMAT_ASCII = true /\
+  (forall x, in01 x = true -> fread (fshow x) = Some x) /\ narsese_wf N in01 v = true /\
+  fold_narsese N fread in01 FORMAT_ASCII (lex_of_narsese N fshow FORMAT_ASCII v) = FOk v.
+Proof. exact fold_lex_of_narsese_example. Qed.
+
+(* the numbers: the reader the fold uses (str::parse::<f64>() on any string) and the reader of the enum
+   parser (digits and dots) take a digits-and-dots buffer apart identically (the bit-level corollary
+   fread_full s = fread_dec s is Proofs/FloatDec2P.fread_full_extends_fread_dec; it mentions Flocq's
+   binary64 and therefore rests on the reals axioms, so it is not restated in this file) *)
+Theorem C03_same_decimal : forall s : str,
+  Forall (fun c => digit_or_dot c = true) s ->
+  parse_number s =
+  match dec_scan s false 0%N O O with
+  | Some (m, k, S nd) => Some (m, S nd, (- Z.of_nat k)%Z)
+  | _ => None
+  end.
+Proof. exact same_decimal. Qed.
+Print Assumptions C03_same_decimal.
 
 (* outside the domain: K1 (the witness of the known finding, at the fold level) *)
 Theorem C03_fold_K1_witness :
